@@ -196,15 +196,31 @@ class Renderer:
         lines += ["    " + ln if ln else ln for ln in fn]
         return "\n".join(lines) + "\n"
 
-    def module(self, d, base=None, function_form=False):
+    def plain_function(self, d):
+        body_cls = [None if e[1] is None else self.cls(e[1]) for e in d["body"]]
+        return "\n".join(self.render(d, "creator", body_cls).split("\n")[1:])
+
+    def builder(self, name, d):
+        """`def name(): def creator(self, ...): ...; return creator` -- a creator that is NOT at module top
+        level (its __qualname__ differs from its __name__), as macros generated parametrically are"""
+        fn = self.plain_function(d)
+        return f"def {name}():\n" + "\n".join("    " + ln if ln else ln for ln in fn.split("\n")) + "\n    return creator\n"
+
+    def module(self, d, base=None, function_form=False, nested=False, twin=None):
         if function_form:
             # a plain graph-creator FUNCTION (no decorator): the harness passes this very object to
             # macro_node(...) / as_macro_node(...)(...) several times with different declarations
-            body_cls = [None if e[1] is None else self.cls(e[1]) for e in d["body"]]
-            fn = "\n".join(self.render(d, "creator", body_cls).split("\n")[1:])
-            self.chunks.append(fn)
-            return ("from pyiron_workflow.nodes.macro import Macro, as_macro_node\n"
-                    "from harness.props.c09 import FN\n\n\n" + "\n\n".join(self.chunks) + "\n\nTOP = 'creator'\n")
+            head = ("from pyiron_workflow.nodes.macro import Macro, as_macro_node\n"
+                    "from harness.props.c09 import FN\n\n\n")
+            if nested or twin is not None:
+                tail = "\n\nTOP = 'build_main'\nNESTED = True\n"
+                if twin is not None:      # ANOTHER creator with the same __name__, made by another builder
+                    self.chunks.append(self.builder("build_twin", twin))
+                    tail += "TWIN = 'build_twin'\n"
+                self.chunks.append(self.builder("build_main", d))
+                return head + "\n\n".join(self.chunks) + tail
+            self.chunks.append(self.plain_function(d))
+            return head + "\n\n".join(self.chunks) + "\n\nTOP = 'creator'\n"
         if base is None:
             top = self.cls(d)
             extra = ""
@@ -523,6 +539,12 @@ def variant_def(d, var):
     return dict(d, rets=[[lab, r[1]] for lab, r in zip(labels, d["rets"])], scrape=var["labels"] is None)
 
 
+def twin_var(twin):
+    td = twin["d"]
+    return {"labels": None if td.get("scrape") else [r[0] for r in td["rets"]], "form": twin.get("form", "function"),
+            "use_cache": True, "bare": False}
+
+
 def declare(creator, var, label):
     """one declaration of a macro from the creator object, in the form the variant asks for"""
     from pyiron_workflow.nodes.macro import as_macro_node, macro_node
@@ -541,14 +563,15 @@ def variant_facts(creator, d, var, i):
     dv_ = variant_def(d, var)
     try:
         mv = declare(creator, var, f"v{i}")
+        own = type(mv).graph_creator is creator
     except Exception as e:                      # noqa
         return {"static": ["EXC", type(e).__name__], "error": f"{type(e).__name__}: {str(e)[:150]}"}
-    out = {"static": snap_static(mv), "struct": structure_facts(mv, dv_), "use_cache": bool(mv.use_cache)}
+    out = {"static": snap_static(mv), "struct": structure_facts(mv, dv_), "use_cache": bool(mv.use_cache), "own_creator": own}
     try:
         args = []
         for k, c in enumerate(mv.inputs):
             if _val(c.value) is None:
-                mv.inputs[c.label] = 3 + i + k
+                mv.inputs[c.label] = 3 + (i if isinstance(i, int) else 0) + k
             args.append(c.value)
         out["ins"] = [_val(a) for a in args]
         mv.run()
@@ -564,7 +587,9 @@ def run_impl(case):
     base = case.get("base")
     variants = case.get("variants")
     r = Renderer()
-    src = r.module(d, None if base is None else base["d"], function_form=variants is not None)
+    twin = case.get("twin")
+    src = r.module(d, None if base is None else base["d"], function_form=variants is not None,
+                   nested=bool(case.get("nested")), twin=None if twin is None else twin["d"])
     try:
         mod = load_module(src, fresh=base is not None or variants is not None)
     except ValueError:
@@ -584,8 +609,13 @@ def run_impl(case):
         except Exception as e:                  # noqa
             return [["EXC-base", type(e).__name__, str(e)[:200]], {}]
     earlier = []
+    if variants is not None and getattr(mod, "NESTED", False):
+        if twin is not None:                     # history: another creator of the same __name__ went first
+            tw = getattr(mod, mod.TWIN)()
+            earlier.append(variant_facts(tw, twin["d"], twin_var(twin), "t"))
+        top = top()                              # the creator is what the builder returns
     if variants is not None:                     # the SAME creator object declared several times, one process
-        earlier = [variant_facts(top, d, var, i) for i, var in enumerate(variants[:-1])]
+        earlier += [variant_facts(top, d, var, i) for i, var in enumerate(variants[:-1])]
     try:
         m = top(label="m") if variants is None else declare(top, variants[-1], "m")
     except ValueError:
@@ -595,7 +625,8 @@ def run_impl(case):
         return [["EXC-construct", type(e).__name__, str(e)[:200]], {}]
     static = snap_static(m)
     extras = {"struct": structure_facts(m, d), "links0": link_facts(m, d), "steps": [], "variants": earlier,
-              "use_cache": bool(m.use_cache)}
+              "use_cache": bool(m.use_cache),
+              "own_creator": variants is None or type(m).graph_creator is top}
     if base is not None:
         try:                                     # control: the parent class keeps ITS interface
             from pyiron_workflow.channels import NOT_DATA
@@ -608,7 +639,15 @@ def run_impl(case):
     dyn0 = snap_dyn(m)
     for t, op in enumerate(ops):
         ex = {}
-        if op[0] != "run":
+        if op[0] == "runkw":
+            try:
+                labels = list(m.inputs.labels)
+                kw = {labels[k]: x for k, x in op[1]}
+            except IndexError:
+                steps.append(["no-such-channel"])
+                extras["steps"].append({"missing": True})
+                break
+        elif op[0] != "run":
             try:                                 # the channel the operation names must exist
                 _n = resolve(m, op[1])
                 _ = (list(_n.inputs.labels) if op[0] in ("in", "bad") else list(_n.outputs))[op[2]]
@@ -616,16 +655,20 @@ def run_impl(case):
                 steps.append(["no-such-channel"])
                 extras["steps"].append({"missing": True})
                 break
-        if op[0] == "run":
-            ins = [c.value for c in m.inputs]
+        if op[0] in ("run", "runkw"):
             CALLS[0] = 0
             try:
-                m.run()
+                if op[0] == "run":
+                    m.run()
+                elif len(op) > 2 and op[2] == "call":
+                    m(**kw)                       # Node.__call__: pull with the keyword input
+                else:
+                    m.run(**kw)                   # HasIO.set_input_values, then run
                 ok = True
             except Exception as e:              # noqa
                 ok = False
                 ex["error"] = type(e).__name__
-            ex["ins"] = [_val(v) for v in ins]
+            ex["ins"] = [_val(c.value) for c in m.inputs]      # a run never changes its own inputs
             if not ok:
                 steps.append(["fail"])
                 extras["steps"].append(ex)
@@ -655,7 +698,14 @@ def run_impl(case):
         else:
             node = resolve(m, op[1])
             if op[0] == "in":
-                node.inputs[list(node.inputs.labels)[op[2]]] = op[3]
+                lab = list(node.inputs.labels)[op[2]]
+                how = op[4] if len(op) > 4 else "panel"
+                if how == "attr":
+                    setattr(node.inputs, lab, op[3])          # m.inputs.x = v
+                elif how == "value":
+                    node.inputs[lab].value = op[3]            # m.inputs.x.value = v
+                else:
+                    node.inputs[lab] = op[3]                  # m.inputs["x"] = v
             else:
                 list(node.outputs)[op[2]].value = op[3]
             steps.append(snap_dyn(m))
@@ -708,6 +758,8 @@ def coq_op(op):
         return "ORun"
     if op[0] == "bad":
         return f"OSetBad {coq_path(op[1])} {cn(op[2])}"
+    if op[0] == "runkw":
+        return "(ORunKw " + cl(f"({cn(k)}, {cz(x)})" for k, x in op[1]) + ")"
     return f"{'OSetIn' if op[0] == 'in' else 'OSetOut'} {coq_path(op[1])} {cn(op[2])} {cz(op[3])}"
 
 
@@ -720,8 +772,11 @@ def model_term(case):
     if case.get("variants") is None:
         return main
     # every earlier declaration made from the same creator: the wiring of ITS OWN definition
-    stat = [f'(match build {coq_def(variant_def(d, var))} {cs("v%d" % i)} with Some (s, _) => ostatic s | None => OL [OS "ValueError"] end)'
-            for i, var in enumerate(case["variants"][:-1])]
+    decls = [(variant_def(d, var), "v%d" % i) for i, var in enumerate(case["variants"][:-1])]
+    if case.get("twin") is not None:
+        decls = [(variant_def(case["twin"]["d"], twin_var(case["twin"])), "vt")] + decls
+    stat = [f'(match build {coq_def(dd)} {cs(lab)} with Some (s, _) => ostatic s | None => OL [OS "ValueError"] end)'
+            for dd, lab in decls]
     return f"OL [OL {cl(stat)}; {main}]"
 
 
@@ -792,6 +847,26 @@ def refusable_inputs(d):
         for k, p in enumerate(dd["ps"]):
             if p[2] != "int" and rejects(dd, k):
                 out.append((path, k))
+    return out
+
+
+def down_chain(d, path, k):
+    """the child-level input channels (path, index) a macro input forwards to, through any nesting"""
+    cur = d
+    for s_ in path:
+        cur = cur["body"][s_[1]][1]
+    out = []
+    while cur is not None and k < len(cur["ps"]):
+        if kept_of(cur)[k]:
+            out.append((path + [["ui", k]], 0))
+            break
+        us = uses_of(cur, k)[:1]
+        if not us:
+            break
+        j, kk = us[0]
+        path = path + [["body", j]]
+        out.append((path, kk))
+        cur, k = cur["body"][j][1], kk
     return out
 
 
@@ -979,6 +1054,37 @@ def gen_ops(rng, d):
             ops.append(["out", [], rng.randrange(len(d["rets"])), rng.randrange(0, 40)])
     if not any(o[0] == "run" for o in ops) or rng.random() < 0.5:
         ops.append(["run"])
+    # the three spellings of an assignment (panel item / panel attribute / channel.value), and some
+    # macro-level assignments folded into the run that follows them: m.run(x=v) / m(x=v)
+    out = []
+    for o in ops:
+        if o[0] == "in" and len(o) == 4:
+            o = o + [rng.choice(["panel", "panel", "attr", "attr", "value"])]
+        out.append(o)
+    ops, out = out, []
+    i = 0
+    while i < len(ops):
+        o = ops[i]
+        if o[0] == "in" and o[1] == [] and i + 1 < len(ops) and ops[i + 1][0] == "run" and rng.random() < 0.35:
+            out.append(["runkw", [[o[2], o[3]]], rng.choice(["run", "call"])])
+            i += 2
+        else:
+            out.append(o)
+            i += 1
+    ops = out
+    # re-assigning the SAME object at macro level after a child-level edit of a channel it forwards to:
+    # the whole chain must carry it again (small ints are one object in CPython)
+    chains = [(i_, c) for i_ in range(np_) for c in down_chain(d, [], i_)]
+    if chains and rng.random() < 0.3:
+        i_, (p, k) = rng.choice(chains)
+        v = rng.randrange(0, 40)
+        w = (v + 1 + rng.randrange(0, 5)) % 41
+        again = rng.choice([["in", [], i_, v, "panel"], ["in", [], i_, v, "attr"],
+                            ["runkw", [[i_, v]], "run"], ["runkw", [[i_, v]], "call"]])
+        pat = [["in", [], i_, v, rng.choice(["panel", "attr", "value"])], ["in", p, k, w, rng.choice(["panel", "attr", "value"])],
+               again] + ([["run"]] if again[0] == "in" else [])
+        at = rng.randrange(0, len(ops) + 1)
+        ops = ops[:at] + pat + ops[at:]
     return ops
 
 
@@ -1026,7 +1132,7 @@ def generate(ctx):
             d = gen_def(rng, depth)
         ops = gen_ops(rng, d)
         if rng.random() < 0.45:                              # macro-level histories only
-            ops = [o for o in ops if o[0] == "run" or o[1] == []]
+            ops = [o for o in ops if is_macro_level(o)]
         if fam < 0.08 or rng.random() < 0.25:
             ops = gen_bad_ops(rng, d, ops)
         elif rng.random() < 0.03 and d["ps"]:                # a non-int where nothing objects: ends the scenario
@@ -1066,6 +1172,16 @@ def generate(ctx):
                 variants.append({"labels": labels, "form": "decorator" if rng.random() < 0.2 else "function",
                                  "use_cache": rng.random() < 0.8, "bare": labels is not None and len(labels) == 1 and rng.random() < 0.5})
             case["variants"] = variants + [last]
+            if rng.random() < 0.55:
+                # the creator is NOT at module top level (a builder function returns it); sometimes ANOTHER
+                # creator with the same __name__, made by another builder, has been declared before it
+                case["nested"] = True
+                if rng.random() < 0.65:
+                    td = gen_def(rng, rng.choice([0, 0, 1]))
+                    if td["rets"] and not malformed(td) and not dup_returns(td) and td != d:
+                        case["twin"] = {"d": td, "form": rng.choice(["function", "function", "decorator"])}
+                        if rng.random() < 0.5:
+                            case["variants"] = [last]
         k = json.dumps(case, sort_keys=True)
         if k in seen:
             continue
@@ -1095,6 +1211,10 @@ def corpus(ctx):
 
 # =============================================================================================
 # the property, on the facts recorded from the implementation
+def is_macro_level(o):
+    return o[0] in ("run", "runkw") or o[1] == []
+
+
 def _startswith(path, prefix):
     return path[:len(prefix)] == prefix
 
@@ -1111,8 +1231,15 @@ def failures(case, obs):
         main = main[1]
     if variants is not None and isinstance(ex, dict):
         # every declaration made from the same creator object is checked against ITS OWN declaration
-        for i, (var, f) in enumerate(zip(variants[:-1], ex.get("variants", []))):
-            dv_ = variant_def(d, var)
+        decls = [(d, var) for var in variants[:-1]]
+        if case.get("twin") is not None:
+            decls = [(case["twin"]["d"], twin_var(case["twin"]))] + decls
+        if ex.get("own_creator") is False:
+            bad.append(("interface", -1, "the macro's graph creator is not the function it was declared from", None))
+        for i, ((dd_, var), f) in enumerate(zip(decls, ex.get("variants", []))):
+            dv_ = variant_def(dd_, var)
+            if f.get("own_creator") is False:
+                bad.append(("interface", -1, f"declaration {i}: the macro's graph creator is not the function it was declared from", None))
             want_out = [r[0] for r in dv_["rets"]]
             if "error" in f:
                 bad.append(("variant-refused", -1, f"declaration {i} ({var}) of the same creator raised {f['error']}", None))
@@ -1121,7 +1248,7 @@ def failures(case, obs):
                 if sf["pout"] != want_out or sf["inst_out"] != want_out:
                     bad.append(("interface", -1, f"declaration {i} of the same creator declares outputs {want_out}; its class "
                                                  f"previews {sf['pout']}, the instance carries {sf['inst_out']}", None))
-                want_in = [[p[0], p[2], None if p[1] is None else [p[1]]] for p in d["ps"]]
+                want_in = [[p[0], p[2], None if p[1] is None else [p[1]]] for p in dd_["ps"]]
                 if sf["pin"] != want_in:
                     bad.append(("interface", -1, f"declaration {i}: previewed inputs {sf['pin']}, the creator declares {want_in}", None))
             if f.get("use_cache") != var.get("use_cache", True):
@@ -1129,7 +1256,7 @@ def failures(case, obs):
                                              f"{f.get('use_cache')}", None))
             if "run_error" in f:
                 a_ = [None if v is None else v[0] for v in f.get("ins", [])]
-                runnable = len(a_) == len(d["ps"]) and all(isinstance(a, int) for a in a_) and py_denote(dv_, a_) is not None
+                runnable = len(a_) == len(dd_["ps"]) and all(isinstance(a, int) for a in a_) and py_denote(dv_, a_) is not None
                 if runnable and not dup_returns(dv_):
                     bad.append(("run-failed", -1, f"declaration {i}: run raised {f['run_error']} although every call of "
                                                   f"the definition has its arguments", None))
@@ -1140,7 +1267,7 @@ def failures(case, obs):
                         bad.append((f"sync-{kind}", -1, f"declaration {i}: macro {kind}put {idx} at {path} holds {mv}, its child "
                                                         f"channel holds {pv}", ("variant", path, idx)))
                 args = [None if v is None else v[0] for v in f.get("ins", [])]
-                if len(args) == len(d["ps"]) and all(isinstance(a, int) for a in args):
+                if len(args) == len(dd_["ps"]) and all(isinstance(a, int) for a in args):
                     ref = py_denote(dv_, args)
                     if ref is not None and f.get("outs") != [[v] for v in ref]:
                         bad.append(("run-differs", -1, f"declaration {i} (labels {want_out}) with inputs {args} returned "
@@ -1202,7 +1329,7 @@ def failures(case, obs):
                 bad.append(("refused-update-left-traces", t, f"step {t}: the assignment was refused (TypeError) but "
                                                              f"some channel changed", None))
             continue
-        if ops[t][0] != "run":
+        if ops[t][0] not in ("run", "runkw"):
             continue
         ins = st["ins"]
         if any(v is not None and not (len(v) == 1 and isinstance(v[0], int) and not isinstance(v[0], bool)) for v in ins):
@@ -1218,7 +1345,7 @@ def failures(case, obs):
                 bad.append(("run-failed", t, f"run {t} raised {st.get('error')} although every call of the "
                                              f"definition has its arguments", None))
             continue
-        macro_level_only = all(o[0] == "run" or o[1] == [] for o in ops[:t])
+        macro_level_only = all(is_macro_level(o) for o in ops[:t])
         if not macro_level_only:
             continue          # the reference for a body edited from inside is not the definition
         if ref is None:
@@ -1255,13 +1382,31 @@ def explain(case, failure):
     dups = dup_returns(d)
     before = ops[:t + 1] if t >= 0 else []
 
-    def recv_in_poke(prefix):
-        return any(o[0] == "in" and o[1] != [] and (json.dumps(o[1]), o[2]) in recv and _startswith(o[1], prefix)
-                   for o in before)
+    def sets(o):
+        """the input channels (path, k) an operation assigns at the sending side"""
+        if o[0] == "in":
+            return [(o[1], o[2])]
+        if o[0] == "runkw":
+            return [([], k) for k, _ in o[1]]
+        return []
+
+    def recv_in_poke(path, idx):
+        """a child-level edit below the sender (path, idx) that no later assignment of the sender -- or of a
+        channel forwarding into it -- has overwritten again (C09_sync_down_partial: such an assignment
+        re-synchronises the whole chain)"""
+        below = [(json.dumps(p), k) for p, k in down_chain(d, path, idx)]
+        last_poke = max([u for u, o in enumerate(before) if o[0] == "in" and (json.dumps(o[1]), o[2]) in below], default=None)
+        if last_poke is None:
+            return False
+        for o in before[last_poke + 1:]:
+            for p, k in sets(o):
+                if (p, k) == (path, idx) or (json.dumps(path), idx) in [(json.dumps(q), kk) for q, kk in down_chain(d, p, k)]:
+                    return False
+        return True
 
     if sig == "sync-in":
         _, path, idx = key
-        return K1 if recv_in_poke(path) else None
+        return K1 if recv_in_poke(path, idx) else None
     if sig == "sync-out":
         _, path, idx = key
         if any(p == path and o == idx for p, o in dups):
@@ -1289,11 +1434,11 @@ def known(case, obs, verdict):
 
 
 def nontrivial(case, obs):
-    return len(case["d"]["body"]) > 0 and any(o[0] == "run" for o in case["ops"])
+    return len(case["d"]["body"]) > 0 and any(o[0] in ("run", "runkw") for o in case["ops"])
 
 
 def key(case):
-    return [case["d"], case["ops"], case.get("base"), case.get("variants")]
+    return [case["d"], case["ops"], case.get("base"), case.get("variants"), case.get("nested"), case.get("twin")]
 
 
 def shrink_candidates(case):
@@ -1326,7 +1471,7 @@ def shrink_candidates(case):
     # a nested definition replaced by its own (when it is the whole story)
     for e in d["body"]:
         if e[1] is not None:
-            yield {"d": e[1], "ops": [o for o in ops if o[0] == "run" or o[1] == []]}
+            yield {"d": e[1], "ops": [o for o in ops if o[0] == "run" or (o[0] != "runkw" and o[1] == [])]}
     if d["fl"][0] != "auto":
         yield {"d": dict(d, fl=["auto"]), "ops": ops}
     if d.get("scrape") is False and d.get("kw"):
@@ -1364,17 +1509,22 @@ def distribution(results):
             ff["declarations"] += len(c["variants"])
             ff["decorator_first"] += any(v.get("form") == "decorator" for v in c["variants"][:-1])
             ff["scraped_then_explicit"] += any(v["labels"] is None for v in c["variants"][:-1])
+            ff["nested_creator"] = ff.get("nested_creator", 0) + bool(c.get("nested"))
+            ff["same_name_twin"] = ff.get("same_name_twin", 0) + (c.get("twin") is not None)
         if isinstance(o, list) and o and o[0] and o[0][0] == "ValueError":
             dist["refused"] += 1
         for op in c["ops"]:
-            if op[0] == "run":
+            if op[0] in ("run", "runkw"):
                 dist["ops"]["run"] += 1
+                dist["ops"]["run_kw"] = dist["ops"].get("run_kw", 0) + (op[0] == "runkw")
             elif op[0] == "bad":
                 dist["ops"]["bad"] += 1
                 dist["refused_from_below"] += (tuple(map(json.dumps, [op[1], op[2]])) in
                                                {tuple(map(json.dumps, [p, k])) for p, k in refusable_inputs(d)})
             elif op[0] == "in":
                 dist["ops"]["macro_in" if op[1] == [] else "child_in"] += 1
+                how = op[4] if len(op) > 4 else "panel"
+                dist["ops"]["how_" + how] = dist["ops"].get("how_" + how, 0) + 1
             else:
                 dist["ops"]["macro_out" if op[1] == [] else "child_out"] += 1
         if isinstance(o, list) and len(o) == 2 and isinstance(o[1], dict):
